@@ -11,6 +11,8 @@ import (
 	"k8s.io/apimachinery/pkg/util/validation/field"
 
 	proxyv1alpha1 "github.com/kubewharf/kubegateway/pkg/apis/proxy/v1alpha1"
+	gwflowcontrol "github.com/kubewharf/kubegateway/pkg/flowcontrols/flowcontrol"
+	limiterflowcontrol "github.com/kubewharf/kubegateway/pkg/ratelimiter/store/flowcontrol"
 )
 
 // c16Schema: a flow-control configuration with symbolic nil-ness of all five members and symbolic int32 numbers.
@@ -80,4 +82,88 @@ func HarnessC16FlowControlConfiguration() {
 		c16SchemaSound(&s, "C16/fc/")
 	}
 	vreach("end")
+}
+
+// HarnessC16FlowControlSchemas: the schema list as the admission plugin validates it (names, strategy, configuration).
+// Every accepted list can be applied by the consumers that assume validated input: the gateway's NewFlowControl /
+// GuessFlowControlSchemaType (executed for real: no panic, a limiter of the configured type) and the limiter server's
+// NewGlobalFlowControl.
+// verif:bounds <= 2 schemas (the first fully symbolic, the second a valid exempt schema with a symbolic name); names <= 1 byte; strategy from {"", local, global-allocate, global-count, one arbitrary byte}; all 32 member combinations with arbitrary int32 numbers
+// verif:encode github.com/zoumo/golib/lock/maxinflight
+// verif:encode k8s.io/client-go/util/flowcontrol
+// verif:encode golang.org/x/time/rate
+// verif:encode time
+// verif:init github.com/zoumo/golib/lock/maxinflight
+// verif:init github.com/kubewharf/kubegateway/pkg/ratelimiter/store/flowcontrol
+func HarnessC16FlowControlSchemas() {
+	n := nondetRange("nschemas", 0, 2)
+	fc := proxyv1alpha1.FlowControl{}
+	for i := 0; i < n; i++ {
+		s := proxyv1alpha1.FlowControlSchema{Name: nondetStringN("name", 1, i)}
+		if i == 0 {
+			s.FlowControlSchemaConfiguration = c16SchemaI("s", i) // fully symbolic
+		} else {
+			// the second schema only varies in its name (duplicate detection); its configuration is a valid one
+			s.Exempt = &proxyv1alpha1.ExemptFlowControlSchema{}
+			fc.Schemas = append(fc.Schemas, s)
+			continue
+		}
+		switch nondetRange("strategy", 0, 4, i) {
+		case 1:
+			s.Strategy = proxyv1alpha1.LocalLimit
+		case 2:
+			s.Strategy = proxyv1alpha1.GlobalAllocateLimit
+		case 3:
+			s.Strategy = proxyv1alpha1.GlobalCountLimit
+		case 4:
+			s.Strategy = proxyv1alpha1.LimitStrategy(nondetStringN("strategy.raw", 1, i))
+		}
+		fc.Schemas = append(fc.Schemas, s)
+	}
+	names, errs := ValidateFlowControl(&fc, field.NewPath("spec"))
+	vobserve("nerrs", len(errs))
+	if len(errs) == 0 {
+		for i := range fc.Schemas {
+			s := fc.Schemas[i]
+			vassert(s.Name != "" && names.Has(s.Name), "C16/fc/accepted-unnamed-schema")
+			for j := 0; j < i; j++ {
+				vassert(fc.Schemas[j].Name != s.Name, "C16/fc/accepted-duplicate-schema-name")
+			}
+			switch s.Strategy {
+			case "", proxyv1alpha1.LocalLimit, proxyv1alpha1.GlobalAllocateLimit, proxyv1alpha1.GlobalCountLimit:
+			default:
+				vfail("C16/fc/accepted-unknown-strategy")
+			}
+			c16SchemaSound(&s.FlowControlSchemaConfiguration, "C16/fc/")
+			// consumers, executed for real: a panic here is a violation (no-panic obligation of the harness)
+			typ := gwflowcontrol.GuessFlowControlSchemaType(s)
+			l := gwflowcontrol.NewFlowControl(s)
+			vassert(l != nil && l.Type() == typ, "C16/fc/gateway-builds-limiter-of-another-type")
+			if s.GlobalMaxRequestsInflight != nil || s.GlobalTokenBucket != nil {
+				g := limiterflowcontrol.NewGlobalFlowControl(s)
+				vassert(g != nil && g.Type() == typ, "C16/fc/server-and-gateway-disagree-on-type")
+			}
+		}
+	}
+	vreach("end")
+}
+
+func c16SchemaI(key string, i int) proxyv1alpha1.FlowControlSchemaConfiguration {
+	var s proxyv1alpha1.FlowControlSchemaConfiguration
+	if nondetBool(key+".exempt", i) {
+		s.Exempt = &proxyv1alpha1.ExemptFlowControlSchema{}
+	}
+	if nondetBool(key+".mif", i) {
+		s.MaxRequestsInflight = &proxyv1alpha1.MaxRequestsInflightFlowControlSchema{Max: nondetInt32(key+".mif.max", i)}
+	}
+	if nondetBool(key+".tb", i) {
+		s.TokenBucket = &proxyv1alpha1.TokenBucketFlowControlSchema{QPS: nondetInt32(key+".tb.qps", i), Burst: nondetInt32(key+".tb.burst", i)}
+	}
+	if nondetBool(key+".gmif", i) {
+		s.GlobalMaxRequestsInflight = &proxyv1alpha1.MaxRequestsInflightFlowControlSchema{Max: nondetInt32(key+".gmif.max", i)}
+	}
+	if nondetBool(key+".gtb", i) {
+		s.GlobalTokenBucket = &proxyv1alpha1.TokenBucketFlowControlSchema{QPS: nondetInt32(key+".gtb.qps", i), Burst: nondetInt32(key+".gtb.burst", i)}
+	}
+	return s
 }
